@@ -15,6 +15,8 @@ RULE = ('exhaustive core: 4 constraint types x {2,3} choices x {2,3,4} options x
         'complete index matrix over {-1,0,1,2}^k, k<=3 and on generated sub-matrices; random: G-CON on top of G-SEL, '
         'linked design-variable nodes; oracle = R-SEL with the index predicate; non-trivial = the constraint removes >= 1 '
         'and keeps >= 1 combination; distinct by sha1(spec, mode)')
+FUZZ_MODULES = ['adsg_core.graph.choice_constraints', 'adsg_core.graph.choices']   # thorough tier: atheris campaign over these modules (vf/fuzz.py)
+FUZZ_RUNS = 4000
 BUDGET = {'quick': 300, 'thorough': 6000}
 TYPES = ['LINKED', 'PERMUTATION', 'UNORDERED', 'UNORDERED_NOREPL']
 PLACEMENTS = ['perm', 'hier_first', 'hier_last', 'hier_rev_first', 'hier_rev_last', 'mutex', 'two_plus_cond',
